@@ -84,6 +84,7 @@ type sClient struct {
 	mu          sync.Mutex
 	noRead      bool
 	closedLocal bool
+	parked      chan struct{} // closed by the reader once it has stopped reading ("stopreading")
 	tap         *tapConn
 	kind        string
 	readGate    chan struct{}
@@ -455,6 +456,7 @@ func (r *runner) clientReader(cl *sClient) {
 		if err != nil && cl.isNoRead() {
 			if ne, ok := err.(net.Error); ok && ne.Timeout() {
 				_ = cl.raw.SetReadDeadline(time.Time{})
+				close(cl.parked)
 				<-cl.readGate // the client does not read any more (until clean-up)
 				return
 			}
@@ -577,7 +579,7 @@ func (r *runner) step(e sEvent) {
 		r.mu.Lock()
 		idx := len(r.clients) + 1
 		// registered before dialling: the server may already close (and report) the connection while we dial
-		pre := &sClient{tag: e.C, idx: idx, done: make(chan struct{}), readGate: make(chan struct{})}
+		pre := &sClient{tag: e.C, idx: idx, done: make(chan struct{}), readGate: make(chan struct{}), parked: make(chan struct{})}
 		r.clients[e.C] = pre
 		r.mu.Unlock()
 		var conn *lx.Conn
@@ -709,6 +711,13 @@ func (r *runner) step(e sEvent) {
 			cl.noRead = true
 			cl.mu.Unlock()
 			_ = cl.raw.SetReadDeadline(time.Now())
+			// wait until the reader has really stopped: a read that is woken by its deadline still returns data (or the
+			// server's FIN) that arrives before the goroutine runs again
+			select {
+			case <-cl.parked:
+			case <-cl.done:
+			case <-time.After(3 * time.Second):
+			}
 			r.emit(tEvent{Ev: "stopreading", C: e.C})
 		}
 	case "close":
